@@ -84,43 +84,45 @@ impl Val {
 
 pub type Obs = Vec<(String, Val)>;
 
-/// Field-by-field copy (ParsedPacket does not implement Clone; all fields are public).
+/// Field-by-field copy (ParsedPacket does not implement Clone; all fields are public). Built by
+/// assignment onto a blank object rather than with a struct literal, so that a library revision
+/// that adds a field to ParsedPacket does not stop the harness from compiling.
 pub fn clone_pp(pp: &ParsedPacket) -> ParsedPacket {
-    ParsedPacket {
-        packet: pp.packet.clone(),
-        offset_question: pp.offset_question,
-        offset_answers: pp.offset_answers,
-        offset_nameservers: pp.offset_nameservers,
-        offset_additional: pp.offset_additional,
-        offset_edns: pp.offset_edns,
-        edns_count: pp.edns_count,
-        ext_rcode: pp.ext_rcode,
-        edns_version: pp.edns_version,
-        ext_flags: pp.ext_flags,
-        maybe_compressed: pp.maybe_compressed,
-        max_payload: pp.max_payload,
-        cached: pp.cached.clone(),
-    }
+    let mut c = ParsedPacket::empty();
+    c.packet = pp.packet.clone();
+    c.offset_question = pp.offset_question;
+    c.offset_answers = pp.offset_answers;
+    c.offset_nameservers = pp.offset_nameservers;
+    c.offset_additional = pp.offset_additional;
+    c.offset_edns = pp.offset_edns;
+    c.edns_count = pp.edns_count;
+    c.ext_rcode = pp.ext_rcode;
+    c.edns_version = pp.edns_version;
+    c.ext_flags = pp.ext_flags;
+    c.maybe_compressed = pp.maybe_compressed;
+    c.max_payload = pp.max_payload;
+    c.cached = pp.cached.clone();
+    c
 }
 
 /// The object a fresh parse would give for bytes that the parser turns away for *policy-only*
 /// reasons (no question / records in a query): built from the independent recogniser's layout.
 pub fn pp_from_layout(bytes: Vec<u8>, lay: &Layout) -> ParsedPacket {
-    ParsedPacket {
-        packet: Some(bytes),
-        offset_question: lay.off[0],
-        offset_answers: lay.off[1],
-        offset_nameservers: lay.off[2],
-        offset_additional: lay.off[3],
-        offset_edns: lay.off_edns,
-        edns_count: lay.edns_count,
-        ext_rcode: lay.ext_rcode,
-        edns_version: lay.edns_version,
-        ext_flags: lay.ext_flags,
-        maybe_compressed: true,
-        max_payload: lay.max_payload,
-        cached: None,
-    }
+    let mut c = ParsedPacket::empty();
+    c.packet = Some(bytes);
+    c.offset_question = lay.off[0];
+    c.offset_answers = lay.off[1];
+    c.offset_nameservers = lay.off[2];
+    c.offset_additional = lay.off[3];
+    c.offset_edns = lay.off_edns;
+    c.edns_count = lay.edns_count;
+    c.ext_rcode = lay.ext_rcode;
+    c.edns_version = lay.edns_version;
+    c.ext_flags = lay.ext_flags;
+    c.maybe_compressed = true;
+    c.max_payload = lay.max_payload;
+    c.cached = None;
+    c
 }
 
 const WALK_CAP: usize = 70_000;
